@@ -401,7 +401,6 @@ class WebsocketSession(object):
         # Create socket and connect to remote server
         try:
             sock, proxy = self._connect()
-            self._sock = sock
         except _SocketFail as error:
             yield events.ConnectFail('{}'.format(error))
             return
@@ -413,7 +412,11 @@ class WebsocketSession(object):
         # We now have a socket.
         # Send the request.
         try:
-            self._send_request()
+            with self._lock:
+                # Under the write lock, the first thing to go through
+                # the socket has to be the request
+                self._sock = sock
+                self._send_request()
         except errors.WebSocketError as error:
             self._close_socket()
             yield events.ConnectFail('request failed; {}'.format(error))
